@@ -272,11 +272,21 @@ def run(chk: harness.Check):
     if lk is None:
         chk.fail("anchor-missing", "lookup", "", "anchor-missing: FractionLookupTable::lookup not found")
     else:
-        n = 0
+        # count the PLACES where a candidate is filtered: a comparison written in lookup's own body counts once, a predicate
+        # closure counts once per use (call argument of find / rfind / is_ok_and / a direct call), so one shared
+        # `allowed` closure used three times is the same as three inline predicates
+        def has_cmp(g):
+            return any("max_den" in full(c[4]) or "max_den" in full(c[3]) for c in comparisons(g))
+        n = sum(1 for c in comparisons(lk) if "max_den" in full(c[4]) or "max_den" in full(c[3]))
+        preds = {g.key for g in F.region_funcs(lk.key) if g.is_closure() and has_cmp(g)}
         for g in F.region_funcs(lk.key):
-            for c in comparisons(g):
-                if "max_den" in full(c[4]) or "max_den" in full(c[3]):
-                    n += 1
+            for b, t in g.calls():
+                used = set()
+                for a in t.get("args", []):
+                    for x in walk(resolve(g, a)):
+                        if x[0] == "agg" and x[1] == "closure" and x[2] in preds:
+                            used.add(x[2])
+                n += len(used)
         chk.expect(n >= 3, "C12.D2-limits", "lookup|max_den filters", f"{lk.file}:{lk.line}",
                    f"FractionLookupTable::lookup compares candidates against max_den in {n} place(s), expected the exact-hit test and both neighbour searches (3)",
                    sample=f"{lk.file}:{lk.line}: {n} comparisons against max_den")
